@@ -137,7 +137,30 @@ let parse_line (l : string) : (bool * act list) option =
       else Some (v = "v2", List.map (function Some a -> a | None -> assert false) acts)
   | _ -> None
 
+(* breadth-first search of the per-future core (same exploration as Async/FutureOpReach.v, counted here
+   for the evidence file): states, transitions, transitions with a trap / unreachable-panic token *)
+let facts = [FWrite; FWPoll; FWCancel; FWDropOp; FDropWriter; FRead; FRPoll; FRCancel; FRDropOp; FDropReader;
+             FTransfer; FPeerRead; FPeerDrop; FPeerWrite; FDeliver EW; FDeliver ER]
+let bfs_stats () : string =
+  String.concat " " (List.map (fun v2 ->
+    let seen = Hashtbl.create 4096 in
+    let q = Queue.create () in
+    let add c = if not (Hashtbl.mem seen c) then (Hashtbl.add seen c (); Queue.add c q) in
+    List.iter (fun h -> List.iter (fun i -> add (fut0 h i)) [true; false]) [true; false];
+    let trans = ref 0 and bad = ref 0 and panics = ref 0 in
+    while not (Queue.is_empty q) do
+      let c = Queue.pop q in
+      List.iter (fun s -> List.iter (fun a ->
+        let (((ok, c'), _), toks) = cstep v2 s c a in
+        incr trans;
+        if not (clean_toks toks) then incr bad;
+        if ok then add c' else incr panics) facts) [true; false]
+    done;
+    Printf.sprintf "v%d:states=%d,transitions=%d,unclean=%d,misuse_panics=%d" (if v2 then 2 else 1)
+      (Hashtbl.length seen) !trans !bad !panics) [true; false])
+
 let () =
+  if Array.length Sys.argv > 1 && Sys.argv.(1) = "bfs" then (print_endline (bfs_stats ()); exit 0);
   let ghost = Array.length Sys.argv > 1 && Sys.argv.(1) = "ghost" in
   Util.iter_lines (fun l ->
       match parse_line l with
